@@ -62,7 +62,7 @@ int main(int argc, char** argv) {
         else if (!strcmp(argv[i], "--shards") && i + 1 < argc) h.shards = atoi(argv[++i]);
         else if (!strcmp(argv[i], "--budget") && i + 1 < argc) h.budget = strtol(argv[++i], NULL, 10);
     }
-    h.rng = seed * 0x2545F4914F6CDD1Dull + 0x1234567;
+    h.rng = seed * 0x2545F4914F6CDD1Dull + 0x1234567; h.seed = seed;
     h.out = outp ? fopen(outp, "w") : stdout;
     if (!h.out) { perror("out"); return 2; }
     if (!strcmp(comp, "replay")) {
